@@ -111,8 +111,11 @@ func fillData(c Case, op *opDef) (B0 []float64, priv [][]float64) {
 }
 
 func transposeArg(slot byte, m mat.Matrix) mat.Matrix {
-	if slot == 'T' {
+	switch slot {
+	case 'T':
 		return m.(mat.Triangular).TTri()
+	case 'V':
+		return m.(*mat.VecDense).TVec()
 	}
 	return m.T()
 }
@@ -192,7 +195,7 @@ func validCase(c Case, op *opDef) bool {
 		for _, k := range slotKinds(op.Slots[i]) {
 			ok = ok || k == a.W.K
 		}
-		if !ok || (a.T && !canT(op.Slots[i], a.W.K)) {
+		if !ok || (a.T && !op.canT(i, a.W.K)) {
 			return false
 		}
 	}
